@@ -532,6 +532,143 @@ def shard(sh: Shard, combos, seed, nops):
     sh.sample({"tables": combos[0] if combos else None, "ops": nops, "classes": ["GeckoStructure", "GeckoAsyncStructure"], "update_kinds": "full|aligned|second-byte|first-byte|adjacent|foreign-bits|noop|random|cover"})
 
 
+def shard_real_refresh(sh: Shard, seed, n, client):
+    """Updates as they really arrive: a refresh made by a connected client (multi-segment chain from
+    the simulator) with observers on every item - blocking client under the baton scheduler, asyncio
+    client in the virtual world.  One refresh = one update: each changed item notifies once with
+    (old, new) of the whole refresh, and every observer already reads the complete new block."""
+    from vlib.common import known_malformed_items
+
+    tables.install_decl_capture()
+    bad = known_malformed_items()
+    for i in range(n):
+        r = rng("C03real", seed, client, i)
+        snap = r.choice(["default.snapshot", "inYT-Pump1Lo-2020-12-13 11_19_35.snapshot", "inXM-Idle-2020-12-09 11_14_06.snapshot"])
+        calls = []
+        state = {"b1": None}
+
+        def obs(sender, old, new):
+            try:
+                okv = sender.value == new
+            except Exception:
+                okv = False
+            calls.append((sender.tag, old, new, bytes(sender.struct.status_block) == state["b1"], okv))
+
+        def judge(struct, refs, b0, b1, st, ln, wit):
+            sh.evaluations += 1
+            sh.count("real_refreshes_observed")
+            by = {}
+            for tag, old, new, okb, okv in calls:
+                by.setdefault(tag, []).append((old, new, okb, okv))
+            for tag, ref in refs.items():
+                v0, v1 = ref.decode(b0), ref.decode(b1)
+                got = by.get(tag, [])
+                wi = dict(wit, item=tag, item_pos=ref.pos, old=repr(v0), new=repr(v1), calls=[(repr(a), repr(b)) for a, b, _, _ in got][:4])
+                if v0 != v1 and not got:
+                    sh.violation("C03:missed", f"{tag} changed {v0!r}->{v1!r} in a refresh made by the {client} client but its observer was not called", wi)
+                elif v0 == v1 and got:
+                    sh.violation("C03:spurious", f"{tag} did not change ({v0!r}) in a refresh made by the {client} client but its observer was called {len(got)}x", wi)
+                elif len(got) > 1:
+                    sh.violation("C03:duplicate", f"{tag} observer called {len(got)} times for one refresh made by the {client} client", wi)
+                elif got:
+                    old, new, okb, okv = got[0]
+                    if ref.kind != "Temp" and (old != v0 or new != v1):
+                        sh.violation("C03:values", f"{tag} notified ({old!r},{new!r}) for a refresh made by the {client} client, expected ({v0!r},{v1!r})", wi)
+                    elif not okb or not okv:
+                        sh.violation("C03:stale-block", f"observer of {tag} did not read the complete new block during a refresh made by the {client} client", wi)
+                    else:
+                        sh.count("notifications_matched")
+            sh.nontrivial(f"realrefresh:{client}:{seed}:{i}")
+
+        def new_content(r, blk, st, ln):
+            b = bytearray(blk)
+            # changes in several segments of the refreshed range, also right at segment boundaries
+            for k in range(r.randrange(3, 30)):
+                p_ = r.choice([st + 39 * r.randrange(0, max(1, ln // 39)) + r.choice([-1, 0, 38]), r.randrange(st, st + ln)])
+                if st <= p_ < st + ln:
+                    b[p_] = (b[p_] + r.randrange(1, 255)) % 256
+            return bytes(b)
+
+        if client == "blocking":
+            from geckolib.driver import GeckoStatusBlockProtocolHandler as SB
+            from vlib.trig import TRig
+            from vlib.vthreads import Deadlock, Stuck
+
+            rig = TRig(r, snapshot=snap)
+            try:
+                try:
+                    if not rig.connect():
+                        sh.count("real_refresh_rig_not_connected")
+                        continue
+                    spa = rig.spa
+                    stems = ()
+                    refs = {t: tables.ref_of(a) for t, a in spa.struct.accessors.items() if hasattr(a, "_verif_decl")}
+                    refs = {t: x for t, x in refs.items() if x.inside_block() and not any((s_, t) in bad for s_, _ in bad)}
+                    for t in refs:
+                        spa.struct.accessors[t].watch(obs)
+                    for rep in range(3):
+                        st, ln = r.choice([(0, 1024), (256, 479), (100, 300)])
+                        b0 = bytes(spa.struct.status_block)
+                        nb = new_content(r, rig.sim_block, st, ln)
+                        rig.set_sim_block(nb)
+                        end = min(st + (-(-ln // 39)) * 39, 1024)
+                        state["b1"] = b0[:st] + nb[st:end] + b0[end:]
+                        del calls[:]
+                        req = SB.request(spa.get_and_increment_sequence_counter(False), st, ln, parms=spa.sendparms)
+                        spa.struct.retry_request(spa, req, spa.sendparms)
+                        rig.s.run_until(lambda: req not in spa._receive_handlers, 60)
+                        rig.quiesce(settle=0.3, limit=5)
+                        if bytes(spa.struct.status_block) != state["b1"]:
+                            sh.count("real_refresh_block_not_as_expected(C01)")
+                            continue
+                        judge(spa.struct, refs, b0, state["b1"], st, ln, {"client": client, "snapshot": snap[:20], "range": [st, ln]})
+                except (Deadlock, Stuck) as e:
+                    sh.inconc(f"{type(e).__name__}")
+            finally:
+                rig.close()
+        else:
+            import asyncio
+
+            from geckolib.driver import GeckoStatusBlockProtocolHandler as SB
+            from vlib.aworld import ScenarioHang, Watchdog, World
+            from vlib.rig import SpaRig
+
+            w = World(r, "B", max_iter=3_000_000, wall_cap=300)
+            try:
+                rig = SpaRig(w, snapshot=snap)
+
+                async def main():
+                    if not await rig.connect():
+                        sh.count("real_refresh_rig_not_connected")
+                        return
+                    spa = rig.spa
+                    refs = {t: tables.ref_of(a) for t, a in spa.struct.accessors.items() if hasattr(a, "_verif_decl")}
+                    refs = {t: x for t, x in refs.items() if x.inside_block()}
+                    for t in refs:
+                        spa.struct.accessors[t].watch(obs)
+                    for rep in range(3):
+                        st, ln = r.choice([(0, 1024), (256, 479), (100, 300)])
+                        b0 = bytes(spa.struct.status_block)
+                        nb = new_content(r, rig.sim.block, st, ln)
+                        rig.sim.set_block(nb)
+                        end = min(st + (-(-ln // 39)) * 39, 1024)
+                        state["b1"] = b0[:st] + nb[st:end] + b0[end:]
+                        del calls[:]
+                        ok = await spa.struct.get(rig.protocol, lambda: SB.request(rig.protocol.get_and_increment_sequence_counter(False), st, ln, parms=spa.sendparms), 3)
+                        await rig.quiesce()
+                        if not ok or bytes(spa.struct.status_block) != state["b1"]:
+                            sh.count("real_refresh_block_not_as_expected(C01)")
+                            continue
+                        judge(spa.struct, refs, b0, state["b1"], st, ln, {"client": client, "snapshot": snap[:20], "range": [st, ln]})
+
+                try:
+                    w.run(main())
+                except (ScenarioHang, Watchdog) as e:
+                    sh.inconc(type(e).__name__)
+            finally:
+                w.close()
+
+
 def pairs():
     """Table pairs such that every cfg and every log module appears at least once."""
     packs, cfgs, logs = tables.module_stems()
@@ -551,6 +688,9 @@ def main(tier, seed):
     n = NCPU
     res = run_shards("checks.c03", "shard", [{"combos": ps[i::n], "seed": seed, "nops": nops} for i in range(n) if ps[i::n]], timeout=3000)
     run.absorb(res)
+    k_ = 3 if tier == "quick" else 60
+    run.absorb(run_shards("checks.c03", "shard_real_refresh", [{"seed": seed * 10 + i, "n": k_, "client": ["blocking", "asyncio"][i % 2]} for i in range(4)], timeout=3000))
+    run.need(run.counters.get("real_refreshes_observed", 0) >= 12, "too few refreshes made by connected clients were observed")
     g = run.sets.get("geometries", set())
     for need in ("second-byte", "first-byte", "foreign-bits", "noop", "adjacent-before", "adjacent-after", "full", "aligned", "units-flip", "nested", "reentrant-observer-ops"):
         run.need(need in g, f"update geometry {need} never exercised")
